@@ -31,6 +31,9 @@ fn main() {
         // table names that differ only in what sanitize_table_name adds; every storage layout through flush + restart, mem_lz4 on / off
         jobs.extend(name_jobs(&args));
         jobs.extend(layout_jobs(&args, &mut rng, null_loss));
+        // columns without a single value in a batch (every wire representation), before / after batches with values
+        jobs.extend(null_column_jobs(&args, null_loss, "c"));
+        jobs.extend(null_random_jobs(&args, &mut rng, &tables, &plain_column_pool(), null_loss));
     }
     results.extend(par_map(jobs, 8, |job: Job| { let obs = run_history(&job.cfg, &job.steps); (job, obs) }));
     if null_loss {
